@@ -5,7 +5,7 @@ LEVEL = "model_checking"
 UNITS = ["sock_close / pipe_close / pipe_stop / pipe_fini / ctx_fini / sock_fini of req, rep, sub, push, pull, pair0, pair1, bus, surveyor, respondent", "src/core/msgqueue.c nni_msgq_close"]
 RULE = "Protocol skeletons that leave operations pending (blocked senders / receivers, in-flight transport transfers, queued messages) and then close: every pending user operation must be completed, exactly once, no lock left held, teardown in reaper order."
 BOUNDS = "those of the skeleton families; teardown order pipe_close*, sock_close, ctx_fini, pipe_stop*, pipe_fini*, sock_fini"
-OUTSIDE = "sock_shutdown's waits, the reaper / poller / task threads, handle tables (nni_sock_find etc.), endpoint close, 'always returns' as liveness over real threads: NOT decided by this technique (CBMC cannot encode preemptive threads over nng's intrusive lists)"
+OUTSIDE = "sock_shutdown's waits, the reaper / poller / task threads, the dialer/listener/pipe handle tables, endpoint close, 'always returns' as liveness over real threads: NOT decided by this technique (CBMC cannot encode preemptive threads over nng's intrusive lists)"
 GROUP_WITNESS = False
 ASSUMPTIONS = ["open findings F6b (non-blocking BUS send refused) and F7 (non-blocking respondent send refused) are excluded by -DKF_BUS_NONBLOCK_EAGAIN / -DKF_RESP_NONBLOCK_EAGAIN: they are C09/C07/C15 matters; the refused send is checked to fail cleanly", "as in C04-C09"]
 
@@ -20,6 +20,27 @@ def queries(tier):
     for q in _cross.pick(tier, pred2, 10 if tier == "quick" else 100000, bus_excl=True):
         if q.name not in names:
             qs.append(q)
+    qs += handle_queries(tier)
+    return qs
+
+
+def handle_queries(tier):
+    """handles are invalid after close: the lookup / reference layer of the real core/socket.c"""
+    qs = []
+    HENV = ["env_alloc.c", "env_misc.c", "env_sync.c", "env_aio.c", "env_idmap.c", "env_libc.c"]
+    qs.append(Query("handle-sock-find-any-id", "c10/handles.c", tus=["core/list.c"], env=HENV, defs={"MODE": 1}, unwind=12, timeout=300, group="c10/handles.c#1",
+                    params={"kernel": "nni_sock_find", "id": "any 32-bit value", "closed/device flags": "symbolic"}))
+    words = ["c", "fcr", "fc", "frc", "fcfr", "sc", "sfc", "fsrc", "fcrf", "cf", "ffrcr", "scf"]
+    if tier != "quick":
+        import itertools
+        words += ["".join(w) for n in (4, 5) for w in itertools.product("frcs", repeat=n)]
+    seen = set()
+    for w in words:
+        if w in seen:
+            continue
+        seen.add(w)
+        qs.append(Query("handle-ctx-%s" % w, "c10/handles.c", tus=["core/list.c"], env=HENV, defs={"MODE": 2, "WORD": '"%s"' % w}, unwind=12, timeout=300,
+                        group="c10/handles.c#2", params={"kernel": "nni_ctx_open/find/close/rele/destroy", "word": w, "looked_up_id": "any 32-bit value after every step"}))
     return qs
 
 MANIFEST = {
